@@ -40,7 +40,7 @@ def event_as_json(sub_id, event):
         )
     else:
         tags = ""
-    return f'["EVENT","{sub_id}",{{"id":"{event.id}","created_at":{event.created_at},"pubkey":"{event.pubkey}","kind":{event.kind},"sig":"{event.sig}","content":{encode_basestring(event.content)},"tags":[{tags}]}}]'
+    return f'["EVENT",{encode_basestring(sub_id)},{{"id":"{event.id}","created_at":{event.created_at},"pubkey":"{event.pubkey}","kind":{event.kind},"sig":"{event.sig}","content":{encode_basestring(event.content)},"tags":[{tags}]}}]'
 
 
 class catchtime:
